@@ -504,32 +504,52 @@ Definition parsed_eqb (a b : parsed) : bool :=
   | _, _ => false
   end.
 
-(* one correspondence case: configuration, request, clock, replay cache before; then what the real
-   Endpoint.client_authentication answered, what the real parse_request handed on, replay cache after *)
-Record case := {
-  k_cx_cdb : list (pystr * client);  k_kj : keyjar;  k_tok : list (pystr * tok_res);
-  k_ep_cfg : option (list meth);  k_ep : endpoint;     (* k_ep's method list is recomputed from k_ep_cfg *)
-  k_rq : request;  k_now : Z;  k_jdb : jti_db;
-  k_obs_auth : res (option auth_info);  k_obs_parse : res parsed;  k_jdb_after : jti_db }.
+(* one correspondence case = one history: a configuration and a sequence of requests threading one replay
+   cache; per request the clock, what the real Endpoint.client_authentication answered, what the real
+   parse_request handed on, and the keys the real jti_db gained *)
+Record hstep := {
+  h_rq : request;  h_now : Z;
+  h_obs_auth : res (option auth_info);  h_obs_parse : res parsed;  h_new : jti_db }.
+Record hcase := {
+  hc_cdb : list (pystr * client);  hc_kj : keyjar;  hc_tok : list (pystr * tok_res);
+  hc_ep_cfg : option (list meth);  hc_ep : endpoint;     (* hc_ep's method list is recomputed from hc_ep_cfg *)
+  hc_jdb0 : jti_db;  hc_steps : list hstep }.
 
-Definition case_cx (c : case) : actx :=
-  {| cx_cdb := k_cx_cdb c; cx_kj := k_kj c; cx_tok := tok_table (k_tok c) |}.
-Definition case_ep (c : case) : endpoint :=
-  {| ep_name := ep_name (k_ep c); ep_methods := configured_methods (k_ep_cfg c);
-     ep_targets := ep_targets (k_ep c); ep_lookup := ep_lookup (k_ep c); ep_userinfo := ep_userinfo (k_ep c) |}.
+Definition case_cx (c : hcase) : actx :=
+  {| cx_cdb := hc_cdb c; cx_kj := hc_kj c; cx_tok := tok_table (hc_tok c) |}.
+Definition case_ep (c : hcase) : endpoint :=
+  {| ep_name := ep_name (hc_ep c); ep_methods := configured_methods (hc_ep_cfg c);
+     ep_targets := ep_targets (hc_ep c); ep_lookup := ep_lookup (hc_ep c); ep_userinfo := ep_userinfo (hc_ep c) |}.
 
-Definition model_auth (c : case) := client_authentication (case_cx c) (case_ep c) (k_rq c) (k_now c) (k_jdb c).
-Definition model_parse (c : case) := parse_request (case_cx c) (case_ep c) (k_rq c) (k_now c) (k_jdb c).
+Definition step_ok (cx : actx) (ep : endpoint) (jdb : jti_db) (s : hstep) : bool :=
+  let '(a, j1) := client_authentication cx ep (h_rq s) (h_now s) jdb in
+  let '(p, j2) := parse_request cx ep (h_rq s) (h_now s) jdb in
+  res_eqb (option_eqb ai_eqb) a (h_obs_auth s)
+  && res_eqb parsed_eqb p (h_obs_parse s)
+  && list_eqb str_eqb j1 (jdb ++ h_new s) && list_eqb str_eqb j2 (jdb ++ h_new s).
 
-Definition chk_case (c : case) : bool :=
-  let '(a, j1) := model_auth c in
-  let '(p, j2) := model_parse c in
-  res_eqb (option_eqb ai_eqb) a (k_obs_auth c)
-  && res_eqb parsed_eqb p (k_obs_parse c)
-  && list_eqb str_eqb j1 (k_jdb_after c) && list_eqb str_eqb j2 (k_jdb_after c).
-
-(* diagnostics: what the model answers *)
-Definition diag_case (c : case) := (model_auth c, fst (model_parse c)).
+(* indices of the steps on which model and implementation differ; every step starts from the replay cache
+   the implementation had (so one difference does not cascade) *)
+Fixpoint bad_steps (cx : actx) (ep : endpoint) (jdb : jti_db) (i : nat) (steps : list hstep) : list nat :=
+  match steps with
+  | [] => []
+  | s :: r => (if step_ok cx ep jdb s then [] else [i]) ++ bad_steps cx ep (jdb ++ h_new s) (S i) r
+  end.
+Definition diag_history (c : hcase) : list nat := bad_steps (case_cx c) (case_ep c) (hc_jdb0 c) O (hc_steps c).
+Definition chk_history (c : hcase) : bool := match diag_history c with [] => true | _ => false end.
+(* what the model answers on step i (diagnostics) *)
+Fixpoint jdb_at (jdb : jti_db) (i : nat) (steps : list hstep) : jti_db * option hstep :=
+  match steps, i with
+  | [], _ => (jdb, None)
+  | s :: _, O => (jdb, Some s)
+  | s :: r, S i' => jdb_at (jdb ++ h_new s) i' r
+  end.
+Definition diag_step (c : hcase) (i : nat) :=
+  match jdb_at (hc_jdb0 c) i (hc_steps c) with
+  | (jdb, Some s) => Some (client_authentication (case_cx c) (case_ep c) (h_rq s) (h_now s) jdb,
+                           fst (parse_request (case_cx c) (case_ep c) (h_rq s) (h_now s) jdb))
+  | _ => None
+  end.
 
 (* valid_client_secret called directly: (has secret, expires_at, now, observed) *)
 Definition chk_valid_secret (c : bool * option Z * Z * bool) : bool :=
